@@ -8,7 +8,6 @@ package main
 
 import (
 	"fmt"
-	"go/types"
 	"runtime/debug"
 	"sync"
 
@@ -30,17 +29,6 @@ type Thread struct {
 }
 
 type threadKill struct{}
-
-type ChanV struct {
-	id       int
-	cap      int
-	buf      []Value
-	closed   bool
-	handoff  []Value // unbuffered: at most one pending value
-	recvWait int
-	elem     types.Type
-	label    string
-}
 
 type vtimer struct {
 	when   *Term
@@ -306,193 +294,6 @@ func (ex *Exec) panicMessage(gp *goPanic) string {
 		}
 	}
 	return "panic"
-}
-
-// ---------- channels ----------
-
-func (ex *Exec) newChan(capacity int, elem types.Type) *ChanV {
-	ex.mapN++
-	return &ChanV{id: ex.mapN, cap: capacity, elem: elem}
-}
-
-func (c *ChanV) canRecv() bool { return len(c.buf) > 0 || len(c.handoff) > 0 || c.closed }
-func (c *ChanV) canSendNow() bool {
-	if c.closed {
-		return true // will panic
-	}
-	if c.cap > 0 {
-		return len(c.buf) < c.cap
-	}
-	return c.recvWait > 0 && len(c.handoff) == 0
-}
-
-func (ex *Exec) chanSend(cv, v Value) {
-	c := cv.(*ChanV)
-	ex.schedPoint("send")
-	if c == nil {
-		ex.blockUntil(func() bool { return false }, "send on nil chan")
-	}
-	if c.cap > 0 {
-		ex.blockUntil(func() bool { return c.closed || len(c.buf) < c.cap }, "chan send")
-		if c.closed {
-			ex.goPanicStr("send on closed channel")
-		}
-		c.buf = append(c.buf, v)
-		return
-	}
-	ex.blockUntil(func() bool { return c.closed || len(c.handoff) == 0 }, "chan send")
-	if c.closed {
-		ex.goPanicStr("send on closed channel")
-	}
-	tok := &struct{ v Value }{v}
-	c.handoff = []Value{tok}
-	taken := func() bool {
-		return !(len(c.handoff) == 1 && c.handoff[0] == Value(tok)) || c.closed
-	}
-	ex.blockUntil(taken, "chan send (rendezvous)")
-	if len(c.handoff) == 1 && c.handoff[0] == Value(tok) && c.closed {
-		c.handoff = nil
-		ex.goPanicStr("send on closed channel")
-	}
-}
-
-func (ex *Exec) takeFrom(c *ChanV) (Value, bool) {
-	if len(c.buf) > 0 {
-		v := c.buf[0]
-		c.buf = c.buf[1:]
-		return v, true
-	}
-	if len(c.handoff) > 0 {
-		tok := c.handoff[0].(*struct{ v Value })
-		c.handoff = nil
-		return tok.v, true
-	}
-	if c.closed {
-		return ex.zeroValue(c.elem), false
-	}
-	panic("takeFrom: nothing to take")
-}
-
-func (ex *Exec) chanRecv(cv Value, commaOk bool) Value {
-	c := cv.(*ChanV)
-	ex.schedPoint("recv")
-	if c == nil {
-		ex.blockUntil(func() bool { return false }, "recv on nil chan")
-	}
-	if !c.canRecv() {
-		c.recvWait++
-		ex.blockUntil(c.canRecv, "chan recv")
-		c.recvWait--
-	}
-	v, ok := ex.takeFrom(c)
-	if commaOk {
-		return TupleV{v, ex.tt.Bool(ok)}
-	}
-	return v
-}
-
-func (ex *Exec) chanClose(cv Value) {
-	c := cv.(*ChanV)
-	if c == nil {
-		ex.goPanicStr("close of nil channel")
-	}
-	if c.closed {
-		ex.goPanicStr("close of closed channel")
-	}
-	c.closed = true
-	ex.schedPoint("close")
-}
-
-func (ex *Exec) goPanicStr(msg string) {
-	ex.runtimePanic(msg)
-}
-
-func (ex *Exec) doSelect(fr *frame, in *ssa.Select) Value {
-	type sc struct {
-		c    *ChanV
-		send bool
-		v    Value
-	}
-	states := make([]sc, len(in.States))
-	for i, st := range in.States {
-		c, _ := ex.get(fr, st.Chan).(*ChanV)
-		states[i] = sc{c: c, send: st.Dir == types.SendOnly}
-		if states[i].send {
-			states[i].v = ex.get(fr, st.Send)
-		}
-	}
-	ex.schedPoint("select")
-	ready := func() []int {
-		var r []int
-		for i, s := range states {
-			if s.c == nil {
-				continue
-			}
-			if s.send {
-				if s.c.canSendNow() {
-					r = append(r, i)
-				}
-			} else if s.c.canRecv() {
-				r = append(r, i)
-			}
-		}
-		return r
-	}
-	rs := ready()
-	if len(rs) == 0 {
-		if !in.Blocking {
-			return ex.selectResult(in, -1, nil, false)
-		}
-		for _, s := range states {
-			if s.c != nil && !s.send {
-				s.c.recvWait++
-			}
-		}
-		// a blocked select with send cases on unbuffered channels offers the value
-		ex.blockUntil(func() bool { return len(ready()) > 0 }, "select")
-		for _, s := range states {
-			if s.c != nil && !s.send {
-				s.c.recvWait--
-			}
-		}
-		rs = ready()
-	}
-	k := 0
-	if len(rs) > 1 {
-		k = ex.choose(len(rs), "select")
-	}
-	idx := rs[k]
-	s := states[idx]
-	if s.send {
-		if s.c.closed {
-			ex.goPanicStr("send on closed channel")
-		}
-		if s.c.cap > 0 {
-			s.c.buf = append(s.c.buf, s.v)
-		} else {
-			tok := &struct{ v Value }{s.v}
-			s.c.handoff = []Value{tok}
-			c := s.c
-			ex.blockUntil(func() bool { return !(len(c.handoff) == 1 && c.handoff[0] == Value(tok)) }, "select send (rendezvous)")
-		}
-		return ex.selectResult(in, idx, nil, false)
-	}
-	v, ok := ex.takeFrom(s.c)
-	return ex.selectResult(in, idx, v, ok)
-}
-
-func (ex *Exec) selectResult(in *ssa.Select, idx int, v Value, ok bool) Value {
-	tv := TupleV{ex.intc(int64(idx)), ex.tt.Bool(ok)}
-	for i, st := range in.States {
-		if st.Dir == types.RecvOnly {
-			if i == idx {
-				tv = append(tv, v)
-			} else {
-				tv = append(tv, ex.zeroValue(st.Chan.Type().Underlying().(*types.Chan).Elem()))
-			}
-		}
-	}
-	return tv
 }
 
 // ---------- virtual time ----------
